@@ -22,7 +22,7 @@ ASSUMPTIONS = ['sample names are [A-Za-z0-9_]+ ; a share of names end in .fa/.fa
                'the build of the remaining samples is a run of the same binary (differential); the model is independent']
 REQUIRED = {t: ['route:cli', 'route:file', 'route:file-no-trailing-newline', 'route:file-blank-lines', 'inplace', 'with-o',
                 'refuse:unknown', 'refuse:all', 'refuse:all-with-repeat', 'kmers_removed', 'nonadjacent_deletions', 'width64', 'width128', 'pretreated_files',
-                'stored_rows_compared', 'deletions_leaving_255..257_samples', 'rows_present_in_exactly_256_remaining_samples', 'unwritable_output_refused', 'with-o-naming-the-input-file', 'refusals_with-o-naming-the-input-file', 'files_of_4096+_rows']
+                'stored_rows_compared', 'names_files_over_8KiB', 'deletions_leaving_255..257_samples', 'rows_present_in_exactly_256_remaining_samples', 'unwritable_output_refused', 'with-o-naming-the-input-file', 'refusals_with-o-naming-the-input-file', 'files_of_4096+_rows']
             for t in ('quick', 'thorough')}
 
 
@@ -87,9 +87,9 @@ def run_case(desc, ctx):
     odd_names = rng.random() < 0.25
     names = []
     for i in range(ns):
-        nm = 'n%d' % i
+        nm = 'n%d' % i if not desc.get('crowd') else 'isolate_%03d_%s' % (i, 'x' * 48)
         if odd_names and rng.random() < 0.5:
-            nm += rng.choice(['.fa', '.fasta', '_x.fastq'])
+            nm += rng.choice(['.fa', '.fasta', '_x.fastq', ',1', ',b.fa'])
         names.append(nm)
     files = [G.write_fa(ctx.path('in%d.fa' % i), recs) for i, recs in enumerate(samples)]
     ctx.write('list.tsv', ''.join('%s\t%s\n' % (names[i], files[i]) for i in range(ns)))
@@ -100,6 +100,8 @@ def run_case(desc, ctx):
         subsets = [list(c) for r in range(1, ns) for c in itertools.combinations(range(ns), r)]
     elif desc.get('crowd'):
         subsets = [sorted(rng.sample(range(ns), ns - left)) for left in (256, 255, 257) if ns - left >= 1]
+        # and one deletion of most samples through a names file of more than 8 KiB (long names)
+        subsets.append(sorted(rng.sample(range(ns), ns - rng.randint(5, 40))))
         res.count('deletions_leaving_255..257_samples', len(subsets))
     else:
         subsets = [sorted(rng.sample(range(ns), rng.randint(1, ns - 1))) for _ in range(2)]
@@ -130,6 +132,10 @@ def run_case(desc, ctx):
         for dn in (subsets if variant == 'rel' else subsets[:2]):
             keep = [i for i in range(ns) if i not in dn]
             route = rng.choice(['cli', 'file', 'file-no-trailing-newline', 'file-blank-lines'])
+            if desc.get('crowd') and len(dn) > 150:
+                route = 'file'
+                if variant == 'rel':
+                    res.count('names_files_over_8KiB')
             inplace = rng.random() < 0.5
             samefile = (not inplace) and rng.random() < 0.3       # -o naming the very file given with -s
             ctx.write('work.skf', original)
